@@ -11,13 +11,17 @@ CONSTANTS
   ShapeVals <- ShapeValsSmall
   ShapeDepth = 1
   DocAlpha = {}
+  DocAlphaNL = {}
   DocLen = 0
+  LexAlpha = {}
+  LexLen = 0
 INVARIANT RoundTrip
 INVARIANT WhitespaceOnly
 INVARIANT TokenShape
 INVARIANT RawBlockNames
 INVARIANT LinesIncrease
 INVARIANT DocLexes
+INVARIANT LexShape
 INVARIANT Terminates
 INVARIANT ParseAgrees
 INVARIANT StackOK
